@@ -7,6 +7,7 @@
     in-range bounds select positions a … b      range_in_range
     a range is a contiguous piece of the list   range_infix
     `Trim` leaves what `Range` returned         trim_keeps_range
+    sorted-set ranks (C05)                      rank_negative_empty, rank_inverted_empty, rank_in_range, rank_stop_clamped
 
   Each holds for every list and all integers, with no side condition: they are corollaries of
   `range_refines` / `trim_refines` (full strength since the repair of D01/D02 — before it every one of them
@@ -108,5 +109,41 @@ example : modelRange ['a', 'b', 'c'] (-7) 1 = ['a', 'b'] := by decide
 example : modelRange ['a', 'b', 'c'] 1 99 = modelRange ['a', 'b', 'c'] 1 (-1) := range_clamps_stop _ _ _ (by decide)
 example : modelRange ['a', 'b', 'c'] (-1) (-2) = [] := range_inverted_empty _ _ _ (by decide)
 example : (modelRange ['a', 'b', 'c', 'd'] (1 : Nat) (2 : Nat)).length = 2 := (range_in_range _ 1 2 (by decide) (by decide)).2
+
+/-! ### sorted-set ranks (C05): the same rule, without negative indexes -/
+
+/-- sorted-set ranks are never negative: a negative bound selects nothing (range and remove alike) -/
+theorem rank_negative_empty {α} (l : List α) (a b : Int) (h : a < 0 ∨ b < 0) :
+    modelRankRange l a b = [] ∧ modelRankDelete l a b = [] := by
+  rw [rank_delete_refines, rank_range_refines]
+  unfold Spec.rankSlice
+  have : a < 0 ∨ b < 0 ∨ a > b := by omega
+  simp [this]
+
+/-- an inverted rank interval selects nothing -/
+theorem rank_inverted_empty {α} (l : List α) (a b : Int) (h : b < a) :
+    modelRankRange l a b = [] ∧ modelRankDelete l a b = [] := by
+  rw [rank_delete_refines, rank_range_refines]
+  unfold Spec.rankSlice
+  have : a < 0 ∨ b < 0 ∨ a > b := by omega
+  simp [this]
+
+/-- in-range ranks select exactly the positions `a … b`; a stop past the end is clamped -/
+theorem rank_in_range {α} (l : List α) (a b : Nat) (hab : a ≤ b) :
+    modelRankRange l a b = (l.drop a).take (b - a + 1) := by
+  rw [rank_range_refines]
+  unfold Spec.rankSlice
+  have : ¬ ((a : Int) < 0 ∨ (b : Int) < 0 ∨ (a : Int) > b) := by omega
+  rw [if_neg this]
+  congr 1
+  omega
+
+theorem rank_stop_clamped {α} (l : List α) (a b : Nat) (hab : a ≤ b) (hb : l.length ≤ b + 1) :
+    modelRankRange l a b = l.drop a := by
+  rw [rank_in_range l a b hab, List.take_of_length_le]
+  rw [List.length_drop]; omega
+
+example : modelRankRange [0, 1, 2, 3, 4] (2 : Nat) (100 : Nat) = [2, 3, 4] := rank_stop_clamped _ 2 100 (by decide) (by decide)
+example : modelRankDelete [0, 1, 2, 3, 4] (-1) 3 = [] := (rank_negative_empty _ _ _ (Or.inl (by decide))).2
 
 end Redka.Props.C02
